@@ -6,12 +6,15 @@ use serde_json::{json, Value};
 use std::io::Read;
 
 mod c01;
+mod c02;
 mod c03;
 mod c04;
 mod c05;
+mod c06;
 mod c07;
 mod c09;
 mod c12;
+mod c14;
 mod c16;
 mod c17;
 mod c18;
@@ -44,6 +47,8 @@ fn main() {
         "c17_parse" => c17::parse(&v),
         "c17_remap" => c17::remap(&v),
         "c01_added_lines" => c01::added_lines(&v),
+        "c02_shift" => c02::shift(&v),
+        "c02_hook_inert" => c02::hook_inert(&v),
         "c03_checkout_paths" => c03::checkout_paths(&v),
         "c03_reset" => c03::reset(&v),
         "c04_split" => c04::split(&v),
@@ -51,6 +56,9 @@ fn main() {
         "c05_upsert" => c05::upsert(&v),
         "c05_state" => c05::state(&v),
         "c05_compress" => c05::compress(&v),
+        "c06_handoff" => c06::handoff(&v),
+        "c14_entry" => c14::entry(&v),
+        "c14_prune_select" => c14::prune_select(&v),
         "c07_journal_parse" => c07::journal_parse(&v),
         "c07_state_read" => c07::state_read(&v),
         "c09_lookup" => c09::lookup(&v),
